@@ -31,13 +31,18 @@ Inductive path :=
 | PIndex (n : name)                        (* $o[n] *)
 | PElvisProp (n : name)                    (* $o?.n *)
 | PElvisMeth (n : name)                    (* $o?.n() *)
-| PCallFn (n : name) (kw : list name)      (* call(n, [$o], {kw => $o ...}) *)
-| PCallMeth (n : name) (kw : list name).   (* call(n, [], {kw ...}, $o) *)
+| PCallFn (n : name) (kw : list name) (lam : bool)      (* call(n, [$o], {kw => $o ...}) *)
+| PCallMeth (n : name) (kw : list name) (lam : bool).   (* call(n, [], {kw ...}, $o) *)
+(* lam: the object is callable and call() hands it, as a VALUE, to a Lambda-typed parameter of a
+   function registered under n (args list, kwargs dict or receiver).  Lambda.convert / Lambda._call
+   treat any callable value as the lambda's body and INVOKE it with the lambda's arguments - also in
+   engines created without allow_delegates.  Known finding F20 (open); the model is faithful to it. *)
 
 Inductive fres :=
 | FDenied (e : exn)
 | FReach (m : name)          (* getattr / [] on the host object for member m *)
-| FDispatch (fn : name).     (* overload resolution among the REGISTERED functions of that name *)
+| FDispatch (fn : name)      (* overload resolution among the REGISTERED functions of that name *)
+| FInvoke.                   (* the host object itself is called (as the body of a lambda parameter) *)
 
 Definition property_prefix : name := [35; 112; 114; 111; 112; 101; 114; 116; 121; 35].   (* #property# *)
 Definition indexer_name : name := [35; 105; 110; 100; 101; 120; 101; 114].               (* #indexer *)
@@ -47,8 +52,11 @@ Definition path_form (p : path) : option form :=
   | PProp _ | PElvisProp _ => Some FAttr
   | PMeth _ | PElvisMeth _ => Some FMethod
   | PIndex _ => Some FIndex
-  | PCallFn _ _ | PCallMeth _ _ => None
+  | PCallFn _ _ _ | PCallMeth _ _ _ => None
   end.
+
+Definition path_lam (p : path) : bool :=
+  match p with PCallFn _ _ lam | PCallMeth _ _ lam => lam | _ => false end.
 
 Definition lift (o : outcome) : fres := match o with Denied e => FDenied e | Reach m => FReach m end.
 
@@ -77,10 +85,13 @@ Section Paths.
 
   (* system.call_func: kwargs filtered first (an argument of the call), then lookup by name among
      the registered functions (methods when a receiver is given); never getattr *)
-  Definition call_path (as_method : bool) (n : name) (kw : list name) : fres :=
+  Definition call_path (as_method : bool) (n : name) (kw : list name) (lam : bool) : fres :=
     match filter_kwargs cfg kw with
     | None => FDenied ERuntime
-    | Some _ => dispatch (if as_method then reg_meth n else reg_fn n) n
+    | Some _ =>
+        if (if as_method then reg_meth n else reg_fn n)
+        then (if lam then FInvoke else FDispatch n)
+        else FDenied ENoMatch
     end.
 
   (* the object is a host object (not null): `?.` hands over to '.' *)
@@ -89,8 +100,8 @@ Section Paths.
     | PProp n | PElvisProp n => dot_attr st n
     | PMeth n | PElvisMeth n => dot_method st n
     | PIndex n => index st n
-    | PCallFn n kw => call_path false n kw
-    | PCallMeth n kw => call_path true n kw
+    | PCallFn n kw lam => call_path false n kw lam
+    | PCallMeth n kw lam => call_path true n kw lam
     end.
 End Paths.
 
@@ -127,6 +138,7 @@ Definition fres_eqb (a b : fres) : bool :=
   | FDenied x, FDenied y => exn_eqb x y
   | FReach x, FReach y => str_eqb x y
   | FDispatch _, FDispatch _ => true
+  | FInvoke, FInvoke => true
   | _, _ => false
   end.
 
@@ -137,7 +149,9 @@ Definition kw_ok (cfg : lexcfg) (c : kw_case) : bool := Bool.eqb (is_keyword cfg
 (* observation of a path: a member was reached | error class | a registered function ran (any
    other outcome with the object untouched).  FDispatch allows "ran" and the resolution error
    (whether an overload accepts the arguments is C05's subject) *)
-Inductive pobs := PoReach (m : name) | PoDenied (e : exn) | PoRan.
+(* PoInvoked: the object itself was called.  FInvoke means "may be invoked": whether the overload
+   is selected and whether it ever evaluates that lambda is not decided here *)
+Inductive pobs := PoReach (m : name) | PoDenied (e : exn) | PoRan | PoInvoked.
 
 Record path_case := {
   pc_regex : table; pc_pred : table;
@@ -156,6 +170,9 @@ Definition path_ok (cfg : lexcfg) (c : path_case) : bool :=
   | FDenied e, PoDenied e' => exn_eqb e e'
   | FDispatch _, PoRan => true
   | FDispatch _, PoDenied ENoMatch => true
+  | FInvoke, PoInvoked => true
+  | FInvoke, PoRan => true
+  | FInvoke, PoDenied ENoMatch => true
   | _, _ => false
   end.
 
